@@ -638,7 +638,7 @@ Section StreamProof.
   Proof.
     destruct sh as [c d r rd rc pn].
     destruct x as [| | | | |act| | | |left|ok|]; intros Hop; try discriminate; try destruct left; cbn;
-      destruct fixed, d, c, r, rd; cbn; try destruct (0 <? rc); cbn; repeat split; reflexivity.
+      destruct fixed, d, c, r, rd, rc; cbn; repeat split; reflexivity.
   Qed.
 
   Lemma cinv_step s i : CInv s -> CInv (sys_step _ _ (pstep fixed reads) s i).
@@ -723,7 +723,7 @@ Section StreamProof.
   Lemma closed_monotone t sh : p_closed sh = true -> p_closed (snd (pstep fixed reads t sh)) = true.
   Proof.
     destruct sh as [c d r rd rc pn]. cbn [p_closed]. intros ->.
-    destruct fixed, d, r, rd; destruct t as [| | | | | | | | |left| |]; try destruct left; cbn; try destruct (0 <? rc); cbn; auto.
+    destruct fixed, d, r, rd, rc; destruct t as [| | | | | | | | |left| |]; try destruct left; cbn; auto.
   Qed.
 
   Lemma qinv_step j s i : QInv j s -> QInv j (sys_step _ _ (pstep fixed reads) s i).
@@ -764,18 +764,18 @@ Lemma nstep_frame reads x sh : p_reader sh = true ->
   (x <> OPanicked -> fst (pstep true reads x sh) <> OPanicked).
 Proof.
   destruct sh as [c d r rd rc pn]. cbn [p_reader]. intros ->.
-  destruct x as [| | | | |act| | | |left|ok|]; try destruct left; cbn; destruct d, c, r; cbn; try destruct (0 <? rc); cbn;
+  destruct x as [| | | | |act| | | |left|ok|]; try destruct left; cbn; destruct d, c, r, rc; cbn;
     repeat split; auto; try discriminate.
 Qed.
 
 Lemma ninv_step reads s i : NInv s -> NInv (sys_step _ _ (pstep true reads) s i).
 Proof.
   destruct s as [sh ls]. unfold NInv, sys_step. cbn [fst snd]. intros (Hr & Hp & Hf).
-  destruct (nth_error ls i) as [x|] eqn:En; [|cbn [fst snd]; auto].
+  destruct (nth_error ls i) as [x|] eqn:En; [|cbn [fst snd]; split; [exact Hr|split; [exact Hp|exact Hf]]].
   destruct (nstep_frame reads x sh Hr) as (Hr' & Hp' & Hx').
   destruct (pstep true reads x sh) as [x' sh']. cbn [fst snd] in *.
   split; [exact Hr'|]. split; [rewrite Hp'; exact Hp|].
-  apply Forall_upd; [exact Hf|]. apply Hx'. eapply Forall_nth; eauto.
+  apply Forall_upd; [exact Hf|]. apply Hx'. exact (Forall_nth _ ls i x Hf En).
 Qed.
 
 Theorem ops_concurrent_with_close_never_crash reads ts sched :
